@@ -1121,9 +1121,47 @@ def colr_specs(draw):
     bases = sorted(draw(st.lists(gid, min_size=1, max_size=4, unique=True)))
     spec = {"nglyphs": nglyphs, "version": version}
     if version == 0:
-        spec["v0"] = [[b, [[draw(gid), draw(st.sampled_from([0, 1, 2, 0xFFFF]))] for _ in range(draw(st.integers(0, 4)))]] for b in bases]
+        v0 = []
+        for b in bases:
+            if v0 and v0[-1][1] and draw(st.integers(0, 2)) == 0:
+                # a recoloured variant of the previous base glyph: the same layer glyphs, other palette entries
+                ls = [[g, draw(st.sampled_from([0, 1, 2, 3, 0xFFFF]))] for g, _p in v0[-1][1]]
+            else:
+                ls = [[draw(gid), draw(st.sampled_from([0, 1, 2, 0xFFFF]))] for _ in range(draw(st.integers(0, 4)))]
+            v0.append([b, ls])
+        spec["v0"] = v0
     else:
         spec["v1"] = [[b, draw(paint(nglyphs, draw(st.integers(0, 3)), bases))] for b in bases]
         spec["reuse"] = draw(st.booleans())
         spec["clips"] = [[b, [draw(_FW), draw(_FW), draw(_FW), draw(_FW)]] for b in bases if draw(st.integers(0, 2)) == 0]
     return spec
+
+
+# ---------------------------------------------------------------------------
+# DeltaSetIndexMap / VarIdxMap (HVAR advance width map)
+
+
+@st.composite
+def dsim_specs(draw):
+    """{"n": glyph count, "map": [[outer, inner], ...]} one entry per glyph: the variation index map of an HVAR table."""
+    n = draw(st.sampled_from([1, 2, 3, 5, 17, 40]))
+    shape = draw(st.sampled_from(["dense", "two-rows", "single-bit", "sparse", "big-outer", "identity", "no-variation"]))
+    outer_max = draw(st.sampled_from([0, 0, 1, 3, 255, 4095]))
+    if shape == "dense":
+        k = draw(st.integers(1, 70))
+        m = [[draw(st.integers(0, outer_max)), draw(st.integers(0, k))] for _ in range(n)]
+    elif shape == "two-rows":
+        a, b = draw(st.sampled_from([(0, 4), (0, 2), (0, 8), (2, 6), (0, 64), (1, 128), (0, 0x8000 - 1)]))
+        m = [[draw(st.integers(0, outer_max)), draw(st.sampled_from([a, b]))] for _ in range(n)]
+    elif shape == "single-bit":
+        v = draw(st.sampled_from([1, 2, 4, 8, 64, 256, 0x4000, 0x8000]))
+        m = [[draw(st.integers(0, outer_max)), v] for _ in range(n)]
+    elif shape == "sparse":
+        m = [[draw(st.integers(0, outer_max)), draw(st.sampled_from([0, 1, 3, 5, 1000, 0xFFFE]))] for _ in range(n)]
+    elif shape == "big-outer":
+        m = [[draw(st.sampled_from([0, 1, 0xFF, 0x100, 0xFFFE])), draw(st.integers(0, 3))] for _ in range(n)]
+    elif shape == "identity":
+        m = [[0, i] for i in range(n)]
+    else:
+        m = [[0xFFFF, 0xFFFF] if draw(st.booleans()) else [0, draw(st.integers(0, 9))] for _ in range(n)]
+    return {"n": n, "map": m, "shape": shape}
